@@ -49,7 +49,7 @@ def raw_name(labels_with_len):
 
 def dns_malformed(rng, domain_labels):
     """Valid-looking header with a structurally hostile body."""
-    kind = rng.randrange(14)
+    kind = rng.randrange(15)
     qt = rng.choice([1, 2, 5, 10, 15, 16, 33, 41, 255, 65399, rng.getrandbits(16)])
     dom = proto.encode_name(domain_labels)
     tail = struct.pack(">HH", qt, 1)
@@ -92,6 +92,10 @@ def dns_malformed(rng, domain_labels):
     if kind == 12:      # name ends in pointer to domain placed after it
         body = b"\x05paaaa" + struct.pack(">H", 0xC000 | (12 + 8 + 4)) + tail + dom
         return hdr(rng) + body
+    if kind == 14:      # a label of a reserved type (length byte 0x40..0xBF) carrying a command, under the tunnel domain
+        n = rng.randint(0x40, 0xBF)
+        body = rng.choice([b"z", b"v", b"p", b"l", b"0", b"r", b"Z", b"y"]) + rand_label(rng, n - 1, rng.choice(["b32", "b32", "mixed"]))
+        return hdr(rng) + bytes([n]) + body + dom + tail
     return hdr(rng) + b"\0" + tail + rand_bytes(rng, rng.randint(0, 40))
 
 
